@@ -1037,6 +1037,23 @@ def r512(rep: Report, ctx: Ctx) -> None:
            "it stands for", ok, fi=cen, node=refs[0] if refs else cen.node,
            detail="add_parent_graph_node_to_node_ref(parent_graph_node, node) "
                   "whenever a parent node is given")
+    reg = ctx.func("PUMLGraph.add_parent_graph_node_to_node_ref")
+    rp, nr = reg.params()[1], reg.params()[2]
+    rcfg = ctx.cfg(reg)
+    apps = [c for c in ast.walk(reg.node) if isinstance(c, ast.Call)
+            and call_name(c) == "append" and c.args
+            and isinstance(c.args[0], ast.Name) and c.args[0].id == nr]
+    from ..cfg import ENTRY as _E2, EXIT as _X2
+    ok = len(apps) >= 1 and rcfg.every_path_passes(
+        _E2, _X2, [rcfg.container(c) for c in apps]) and all(
+        rp in unparse(c.func.value) for c in apps)
+    rep.ob("R5.12", "every node registered for a walked-graph node is kept "
+           "(appended on every path, not only the first one)", ok, fi=reg,
+           node=apps[0] if apps else reg.node,
+           detail=(f"{len(apps)} append({nr}) on the entry of {rp}"
+                   + ("" if ok else " -- a second diagram node that stands "
+                      "for the same loop node is not registered: its body "
+                      "is never attached and it is written as LOOP_n")))
     walk_mod = ctx.index.module("walk_puml_logic_graph")
     for f in walk_mod.functions.values():
         for c in ast.walk(f.node):
